@@ -902,8 +902,9 @@ def run(prop, args):
     nb = (4 if prop == "C19" else 6) * (1 if quick else 4)
     for ci, chain in enumerate(chains):
         part = [rename(e, chain.replace(" ", "+") or "default") for e in per_chain(ci)]
-        for bi in range(nb):
-            sub = part[bi::nb]
+        nbc = nb * 2 if (prop == "C19" and ci == 0) else nb      # successful fills cost TLC more: smaller batches
+        for bi in range(nbc):
+            sub = part[bi::nbc]
             if not sub:
                 continue
             tr, out = run_driver(exe, sub, wd, "c%d_b%d" % (ci, bi), chain)
@@ -925,7 +926,7 @@ def run(prop, args):
             raise vf.Infra("vacuous run: pixman_fill never returned TRUE with all implementations enabled: %r" % t)
 
     # 4. trace validation
-    vf.validate_batches(chk, "CompositeTrace", traces, cfg=cfg, parallel=8, timeout=1500)
+    vf.validate_batches(chk, "CompositeTrace", traces, cfg=cfg, parallel=12, timeout=1500)
     save_scripts(chk, by_name)
     if prop == "C19":
         chk.extra["rule"] = ("a case is one logged call; distinct = distinct (call, depth, x, width, height, stride, "
